@@ -1022,16 +1022,18 @@ func c11Gen(tier string, rng *rand.Rand, emit func(string)) map[string]interface
 		raw(gtrees[0], sc)
 		gated++
 	}
-	// two or three subscriptions of ONE object in flight at once: object 1 (gated, ObserveOn h3, delivers directly) holds h3; the
-	// base object, whose value differs per evaluation, is subscribed several times with SubscribeOn(h3): the effects run now, the
-	// deliveries wait in h3's mailbox; each must deliver the value of its own evaluation
-	for _, base := range []*c11Tree{c11Leaf("N", 1), {kind: "FL", c: 1, kids: []*c11Tree{c11Leaf("N", 2), c11Leaf("W", 3)}}, c11Leaf("H", 5)} {
+	// several subscriptions of ONE object in flight at once: the object is subscribed gated (ObserveOn h3, delivering directly) and holds
+	// h3; then the SAME object is re-configured to SubscribeOn(h3) and subscribed again 2–3 times: those effects run now (the gate
+	// stops only the first arrival), their deliveries wait in h3's mailbox; every subscription must deliver the value of its own
+	// evaluation.  (The head tree itself ends in the gate, so no sub-script can leave `sg` without one.)
+	for _, base := range []*c11Tree{c11Leaf("G", 1), {kind: "FL", c: 1, kids: []*c11Tree{c11Leaf("N", 2), c11Leaf("G", 3)}},
+		{kind: "FC", c: 3, kids: []*c11Tree{c11Leaf("N", 1), c11Leaf("G", 2), c11Leaf("G", 3)}}} {
 		for _, mo := range []string{"o0", "o1", "o2"} {
-			for _, mid := range []string{"s ; s", "s ; e ; s ; s", "s ; r 1 ; r 0 ; s", "s ; u0 ; y ; u3 ; s"} {
+			for _, mid := range []string{"s ; s", "s ; e ; s ; s", "s ; u0 ; y ; u3 ; s", "D 1 11 V 0 ; r 1 ; " + mo + " ; u3 ; s ; r 0 ; s ; r 1 ; s"} {
 				if mo != "o0" && strings.Contains(mid, "y") {
 					continue
 				}
-				raw(base, "D 1 11 G 3 ; r 1 ; o3 ; u0 ; sg ; r 0 ; "+mo+" ; u3 ; "+mid+" ; g- ; e")
+				raw(base, "o3 ; u0 ; sg ; "+mo+" ; u3 ; "+mid+" ; g- ; e")
 				gated++
 			}
 		}
@@ -1050,8 +1052,6 @@ func c11Gen(tier string, rng *rand.Rand, emit func(string)) map[string]interface
 			dag++
 		}
 	}
-	raw(&c11Tree{kind: "FL", c: 1, kids: []*c11Tree{c11Leaf("N", 2), c11Leaf("V", 1)}}, "D 1 11 G 3 ; D 2 12 G 4 ; r 1 ; o1 ; u2 ; sg ; u3 ; r 2 ; o2 ; u0 ; s ; r 1 ; o0 ; y ; g- ; r 2 ; e")
-	gated++
 	return map[string]interface{}{
 		"exhaustive": false, "directed_law_cases": directed,
 		"exhaustive_scope": fmt.Sprintf("all trees with <= %d nodes over {J3,V1,N1,N2,W3,H4,FR,FL,FC,A,O1,S2} x %d scripts", maxNodes, len(c11Scripts)),
